@@ -128,10 +128,10 @@ def run(rep: Report, tier: str) -> None:
             raise AnalysisError(f"{cc}: template for language {LANG[cc]} not found: {how}")
         sheets = ods_sheets(str(tpl))
         names = set(sheets)
-        row_idx = _row_index_keys(prog, gen)
+        row_idx = _row_index_keys(prog, gen, rep, rc, cc, t2s)
         for sheet in sorted(set(type_to_sheet.values()) | set(sheet_to_types)):
-            ok = f"__{sheet}" in names and f"__{sheet}" in keep and sheet in row_idx and sheet in sheet_to_types
-            rep.check(ok, rb, modname, "_SHEET_TO_TYPES", f"{cc}: sheet '{sheet}' exists in the template, is kept, counted and typed", f"{cc.upper()}: sheet '{sheet}' — in template: {f'__{sheet}' in names}, kept: {f'__{sheet}' in keep}, has row counter: {sheet in row_idx}, has type list: {sheet in sheet_to_types}", loc(gen.node))
+            ok = f"__{sheet}" in names and f"__{sheet}" in keep and (row_idx is None or sheet in row_idx) and sheet in sheet_to_types
+            rep.check(ok, rb, modname, "_SHEET_TO_TYPES", f"{cc}: sheet '{sheet}' exists in the template, is kept, counted and typed", f"{cc.upper()}: sheet '{sheet}' — in template: {f'__{sheet}' in names}, kept: {f'__{sheet}' in keep}, has row counter: {row_idx is None or sheet in row_idx}, has type list: {sheet in sheet_to_types}", loc(gen.node))
         legend = f"__Legend_tax_report_{cc}"
         for tn in sorted(names):
             if tn in keep and tn != legend:
@@ -158,7 +158,7 @@ def run(rep: Report, tier: str) -> None:
     c10.check_iterator_window(rep, rg, m, "the tax report would list fractions outside the window or drop ones inside it (e.g. a sale on the evening of Dec 31 in a negative-offset time zone)")
 
 
-def _row_index_keys(prog, gen) -> set:
+def _row_index_keys(prog, gen, rep=None, rc=None, cc="", t2s=None):
     g = gen.methods["generate"]
     for n in ast.walk(g.node):
         if isinstance(n, (ast.Assign, ast.AnnAssign)) and unparse(n.targets[0] if isinstance(n, ast.Assign) else n.target) == "row_indexes":
@@ -168,6 +168,13 @@ def _row_index_keys(prog, gen) -> set:
 
                 sn = prog.cls(gen.module, "SheetNames")
                 return {mm.value for mm in enum_members(prog, sn)}
+            if rep is not None and isinstance(v, ast.DictComp) and unparse(v.generators[0].iter) in ("_TYPE_TO_SHEET", "_TYPE_TO_SHEET.keys()", "TransactionType") and unparse(v.key) == unparse(v.generators[0].target):
+                # one counter per transaction type: wrong as soon as two types share a sheet (each restarts at the header row of the same sheet)
+                shared = {sheet: sorted(t for t, s2 in t2s.items() if s2 == sheet) for sheet in set(t2s.values())}
+                shared = {k: ts for k, ts in shared.items() if len(ts) > 1}
+                if shared:
+                    rep.violation(rc, gen.module, g.qualname, f"{cc}: the row counters are keyed by the sheet that is written", f"{cc.upper()}: row_indexes holds one counter per transaction type ({short(v, 90)}), but {'; '.join(f'{ts} share sheet {k!r}' for k, ts in sorted(shared.items()))}: each type starts at the header row of the same sheet, so rows of one type overwrite rows of another (across assets too) and fractions vanish from the report without an error", loc(n), definite=True)
+                    return None
     raise AnalysisError(f"{gen.module}: row_indexes = {{sheet: HEADER_ROWS for sheet in SheetNames}} not found in generate()")
 
 
